@@ -192,7 +192,12 @@ class Resolver:
                 r = p.resolve_expr_static(func.module, fn, func)
                 if isinstance(r, Func) and r.cls is not None and r.name.startswith("from_"):
                     return {r.cls}
-                return set()
+                # method of a typed receiver: what it returns (factory helpers such as
+                # ``self._get_optimizer_hyper_threadsafe()``)
+                out = set()
+                for m in self.methods_for(recv, fn.attr) if recv else ():
+                    out |= self._return_types(m, _depth + 2)
+                return out
             r = p.resolve_expr_static(func.module, fn, func)
             if dotted(fn) == "cls" and func.cls is not None:
                 return {func.cls}
@@ -466,6 +471,12 @@ class Resolver:
         if isinstance(fn, ast.Call):
             # functools.partial(f, ...)(...) or getattr(...)
             r = self._resolve_value_as_callable(func, fn, _depth + 1)
+            if not r.callees:
+                # factory()(...): __call__ of whatever the factory returns
+                types = self.type_of_expr(func, fn)
+                ms = self.methods_for(types, "__call__") if types else []
+                if ms:
+                    return Resolution(ms, via="__call__ of call result")
             return r
         return Resolution(unknown=True, via=type(fn).__name__)
 
